@@ -66,7 +66,7 @@ $(NETB)/marker_end.o: sim/marker_end.c | dirs
 
 # second copy of the example programs at -O0 (locals live on the stack: uninitialised pointers read the 0xA5 fill)
 # (plain char is unsigned in the -O0 copies, as on AArch64/ARM Linux: C code must work with either signedness)
-NET_REPO_CFLAGS_O0 := $(REPO_CFLAGS_COMMON) -O0 -funsigned-char $(NET_SAN) $(COV) -I$(EX)
+NET_REPO_CFLAGS_O0 := $(REPO_CFLAGS_COMMON) -O0 -march=native -funsigned-char $(NET_SAN) $(COV) -I$(EX)
 EX_SRCS := $(shell find $(EX) -name '*.c' | sort)
 $(NETB)/examples_O0.o: $(EX_SRCS) $(LIB_SRCS) $(REPO_HDRS) Makefile tools/build_o0.sh $(B)/repo_config.mk | dirs
 	tools/build_o0.sh $(NETB)/exO0 $@ "$(CC)" "$(NET_REPO_CFLAGS_O0) $(REPO_EX_DEFS)" $(EX) "$(REPO_LIB_DEFS)" $(LIB_SRCS)
@@ -92,7 +92,9 @@ $(GEN)/stamp: tools/gen_bindings.py spec/fields.def bindings/baseline_api.txt $(
 	@mkdir -p $(GEN)
 	python3 tools/gen_bindings.py $(REPO)/include spec/fields.def $(GEN) 2>$(GEN)/gen.log
 	@touch $@
-$(BIND_SRCS): $(GEN)/stamp
+$(BIND_SRCS) $(GEN)/all_headers_az.h $(GEN)/all_headers_za.h: $(GEN)/stamp
+DRV_SRCS := engines/reent/drv_can.c engines/reent/drv_canbrief.c engines/reent/drv_vss.c
+DRVVAR_DEPS := $(DRV_SRCS) engines/reent/drivers.h tools/build_drv_variants.sh $(GEN)/stamp $(REPO_HDRS)
 
 # ---------------------------------------------------------------- rec engine (C05): same instrumented library objects as net
 RECB := $(B)/rec
@@ -105,7 +107,10 @@ REC_SIM_OBJS := $(patsubst %.cc,$(RECB)/sim/%.o,$(REC_SIM_SRCS))
 $(RECB)/sim/%.o: %.cc $(wildcard sim/*.h spec/*.h bindings/*.h engines/reent/drivers.h) Makefile | dirs
 	@mkdir -p $(dir $@)
 	$(CXX) $(SIM_CXXFLAGS) -fsanitize=address -c $< -o $@
-REC_DRV_OBJS := $(B)/reent/drv_can.o $(B)/reent/drv_canbrief.o $(B)/reent/drv_vss.o
+REC_DRV_OBJS := $(B)/reent/drv_can.o $(B)/reent/drv_canbrief.o $(B)/reent/drv_vss.o $(RECB)/drvvar.o
+# the drivers again, behind all public headers in alphabetical / reverse order (A_, Z_)
+$(RECB)/drvvar.o: $(DRVVAR_DEPS) | dirs
+	tools/build_drv_variants.sh $@ $(RECB)/drvvar "$(CC)" "-std=gnu99 -O1 -g -I$(REPO)/include -Iengines/reent -w" $(GEN)/all_headers_az.h $(GEN)/all_headers_za.h $(DRV_SRCS)
 $(B)/rec_sim: $(NETB)/marker_begin.o $(NET_LIB_OBJS) $(NETB)/marker_end.o $(REC_BIND_OBJS) $(REC_DRV_OBJS) $(REC_SIM_OBJS)
 	$(CXX) -no-pie -fsanitize=address,bounds,integer-divide-by-zero -o $@ $(NETB)/marker_begin.o $(NET_LIB_OBJS) $(NETB)/marker_end.o $(REC_BIND_OBJS) $(REC_DRV_OBJS) $(REC_SIM_OBJS) -lm
 rec: $(B)/rec_sim
@@ -176,15 +181,17 @@ RECG_SIM_OBJS := $(patsubst %.cc,$(GLIBB)/rec/%.o,$(REC_SIM_SRCS))
 $(GLIBB)/rec/%.o: %.cc $(wildcard sim/*.h spec/*.h bindings/*.h) Makefile | dirs
 	@mkdir -p $(dir $@)
 	$(CXX) $(SIM_CXXFLAGS) -fsanitize=address -DREC_VARIANT_GCC=1 -c $< -o $@
-$(B)/recg_sim: $(NETB)/marker_begin.o $(GCC_LIB_OBJS) $(NETB)/marker_end.o $(GCC_BIND_OBJS) $(GLIBB)/drv_can.o $(GLIBB)/drv_canbrief.o $(GLIBB)/drv_vss.o $(RECG_SIM_OBJS)
-	$(CXX) -no-pie -fsanitize=address -o $@ $(NETB)/marker_begin.o $(GCC_LIB_OBJS) $(NETB)/marker_end.o $(GCC_BIND_OBJS) $(GLIBB)/drv_can.o $(GLIBB)/drv_canbrief.o $(GLIBB)/drv_vss.o $(RECG_SIM_OBJS) -lm
+$(GLIBB)/drvvar.o: $(DRVVAR_DEPS) | dirs
+	tools/build_drv_variants.sh $@ $(GLIBB)/drvvar "$(GCC)" "$(GCC_REPO_CFLAGS) -Iengines/reent" $(GEN)/all_headers_az.h $(GEN)/all_headers_za.h $(DRV_SRCS)
+$(B)/recg_sim: $(NETB)/marker_begin.o $(GCC_LIB_OBJS) $(NETB)/marker_end.o $(GCC_BIND_OBJS) $(GLIBB)/drv_can.o $(GLIBB)/drv_canbrief.o $(GLIBB)/drv_vss.o $(GLIBB)/drvvar.o $(RECG_SIM_OBJS)
+	$(CXX) -no-pie -fsanitize=address -o $@ $(NETB)/marker_begin.o $(GCC_LIB_OBJS) $(NETB)/marker_end.o $(GCC_BIND_OBJS) $(GLIBB)/drv_can.o $(GLIBB)/drv_canbrief.o $(GLIBB)/drv_vss.o $(GLIBB)/drvvar.o $(RECG_SIM_OBJS) -lm
 rec: $(B)/recg_sim
 
 # ---------------------------------------------------------------- third build for C16: the instrumented build once more, optimised
 # (clang -O2 -DNDEBUG with the same access callbacks): code under `#ifdef __OPTIMIZE__` / `NDEBUG` exists only in optimised builds, and
 # the gcc -O2 build has no access callbacks to see it with
 REENTO := $(B)/reento
-REENTO_CFLAGS := $(REPO_CFLAGS_COMMON) -O2 -DNDEBUG -fno-builtin -fsanitize-coverage=trace-pc-guard,pc-table,trace-loads,trace-stores
+REENTO_CFLAGS := $(REPO_CFLAGS_COMMON) -O2 -march=native -DNDEBUG -fno-builtin -fsanitize-coverage=trace-pc-guard,pc-table,trace-loads,trace-stores
 REENTO_LIB_OBJS := $(patsubst $(REPO)/src/%.c,$(REENTO)/lib/%.o,$(LIB_SRCS))
 $(REENTO)/lib/%.o: $(REPO)/src/%.c $(REPO_HDRS) Makefile $(B)/repo_config.mk | dirs
 	@mkdir -p $(dir $@)
@@ -199,7 +206,9 @@ reent: $(B)/reento_sim
 
 # ---------------------------------------------------------------- third build for C05: no optimisation at all (what the repository's CMake does when no build type is given)
 G0B := $(B)/g0
-G0_CFLAGS := -std=gnu99 -O0 -g -fno-common -U_FORTIFY_SOURCE -D_FORTIFY_SOURCE=0 -I$(REPO)/include -w
+# (-march=native: code that is conditional on instruction-set macros - __SSE4_2__, __AVX2__, __BMI2__ ... - exists only in builds for a
+#  named CPU, which distributions and users request through CMAKE_C_FLAGS; one build per engine is made for the CPU it runs on)
+G0_CFLAGS := -std=gnu99 -O0 -march=native -g -fno-common -U_FORTIFY_SOURCE -D_FORTIFY_SOURCE=0 -I$(REPO)/include -w
 G0_LIB_OBJS := $(patsubst $(REPO)/src/%.c,$(G0B)/lib/%.o,$(LIB_SRCS))
 $(G0B)/lib/%.o: $(REPO)/src/%.c $(REPO_HDRS) Makefile $(B)/repo_config.mk | dirs
 	@mkdir -p $(dir $@)
@@ -215,8 +224,10 @@ REC0_SIM_OBJS := $(patsubst %.cc,$(G0B)/rec/%.o,$(REC_SIM_SRCS))
 $(G0B)/rec/%.o: %.cc $(wildcard sim/*.h spec/*.h bindings/*.h engines/reent/drivers.h) Makefile | dirs
 	@mkdir -p $(dir $@)
 	$(CXX) $(SIM_CXXFLAGS) -fsanitize=address -DREC_VARIANT_O0=1 -c $< -o $@
-$(B)/reco_sim: $(NETB)/marker_begin.o $(G0_LIB_OBJS) $(NETB)/marker_end.o $(G0_BIND_OBJS) $(G0B)/drv_can.o $(G0B)/drv_canbrief.o $(G0B)/drv_vss.o $(REC0_SIM_OBJS)
-	$(CXX) -no-pie -fsanitize=address -o $@ $(NETB)/marker_begin.o $(G0_LIB_OBJS) $(NETB)/marker_end.o $(G0_BIND_OBJS) $(G0B)/drv_can.o $(G0B)/drv_canbrief.o $(G0B)/drv_vss.o $(REC0_SIM_OBJS) -lm
+$(G0B)/drvvar.o: $(DRVVAR_DEPS) | dirs
+	tools/build_drv_variants.sh $@ $(G0B)/drvvar "$(GCC)" "$(G0_CFLAGS) -Iengines/reent" $(GEN)/all_headers_az.h $(GEN)/all_headers_za.h $(DRV_SRCS)
+$(B)/reco_sim: $(NETB)/marker_begin.o $(G0_LIB_OBJS) $(NETB)/marker_end.o $(G0_BIND_OBJS) $(G0B)/drv_can.o $(G0B)/drv_canbrief.o $(G0B)/drv_vss.o $(G0B)/drvvar.o $(REC0_SIM_OBJS)
+	$(CXX) -no-pie -fsanitize=address -o $@ $(NETB)/marker_begin.o $(G0_LIB_OBJS) $(NETB)/marker_end.o $(G0_BIND_OBJS) $(G0B)/drv_can.o $(G0B)/drv_canbrief.o $(G0B)/drv_vss.o $(G0B)/drvvar.o $(REC0_SIM_OBJS) -lm
 rec: $(B)/reco_sim
 
 dirs:
